@@ -683,7 +683,7 @@ class _ClientGen:
         elif prop == "C12":
             w = [("source", 12), ("canon", 22), ("serialize", 22), ("parse_reg", 2), ("write", 3), ("read_reg", 1), ("permute", 3), ("again", 18), ("mutate", 9), ("drop", 4), ("gc", 2), ("rng", 1), ("clock", 1), ("edit", 12)]
         else:
-            w = [("source", 12), ("canon", 4), ("serialize", 2), ("parse_reg", 1), ("write", 1), ("read_reg", 0), ("permute", 38), ("again", 16), ("mutate", 9), ("drop", 3), ("gc", 2), ("rng", 12), ("clock", 0), ("edit", 6)]
+            w = [("source", 12), ("canon", 10), ("serialize", 2), ("parse_reg", 1), ("write", 1), ("read_reg", 0), ("permute", 38), ("again", 16), ("mutate", 9), ("drop", 3), ("gc", 2), ("rng", 12), ("clock", 0), ("edit", 6)]
         if self.mult:
             w = [(k, x * self.mult.get(k, 1)) for k, x in w]
         k = _wchoice(r, w)
@@ -713,7 +713,9 @@ class _ClientGen:
                 seed = r.choice(self.seed_palette) if r.random() < 0.85 else round(r.random(), 3)
             else:
                 seed = r.choice([0.0, 0.5, 0.25, 0.999999, round(r.random(), 3), r.random()])
-            i = self._add({"op": "permute", "arg": r.choice(g), "seed": seed}, None)
+            # canonicalized graphs list their atoms in another order than their labels
+            src = self.live["canon"] if (self.live["canon"] and r.random() < 0.5) else g
+            i = self._add({"op": "permute", "arg": r.choice(src), "seed": seed}, None)
             if not self.multi:
                 self.live["graph"].append(i)
             return i
